@@ -1060,6 +1060,7 @@ func (fc *FuncCtx) lockOp(fr *Frame, st *State, recv Value, acquire bool, full s
 		// acquiring a lock we already hold would deadlock
 		fc.oblige(fr, st, "lock.reacquire", "", tNot("(select "+h+" "+ref+")"), pos, "lock is not already held by this activation (self-deadlock)")
 		fc.setComp(st, key, "(Array Int Bool)", "(store "+h+" "+ref+" true)")
+		st.heldLocks = append(st.heldLocks, key+"|"+ref)
 		fc.monitorEnter(fr, st, owner, field, ref, pos)
 	} else {
 		fc.monitorExit(fr, st, owner, field, ref, pos)
